@@ -1192,3 +1192,75 @@ def disp10(ctx) -> List[Ob]:
         else:
             out.append(bad("DISP-10", c.name, key, ctx.where(init) if init else ctx.where(m), "the renderer does not create its own Digraph in __init__: rendering fails or draws into a shared graph"))
     return out
+
+
+# ------------------------------------------------------------------ DISP-11
+
+
+@rule("DISP-11", 3, "the reader builds every block of the dictionary: the outermost walk is seeded with every block that no region contains, and the outer-block computation removes only the members of regions")
+def disp11(ctx) -> List[Ob]:
+    from .common import see_through
+
+    out: List[Ob] = []
+    io = _io(ctx)
+    fd, mk = io["from_dict"], io["make_scfg"]
+    cfg = ctx.cfg(fd)
+    calls = [c for c in A.walk_no_nested(fd.node) if isinstance(c, ast.Call) and (A.dotted(c.func) or "").split(".")[-1] == mk.name]
+    key = "seeds of the outermost walk"
+    if not calls:
+        out.append(unresolved("DISP-11", fd.qualname, key, ctx.where(fd), "call of make_scfg not found in from_dict"))
+        return out
+    heads_param = [p.arg for p in mk.params if p.arg not in ("self", "cls")][1]
+    arg = kw(calls[0], heads_param, 1)
+    fog = ctx.prog.cls("SCFGIO").find_method("find_outer_graph")
+    if arg is None or fog is None:
+        out.append(unresolved("DISP-11", fd.qualname, key, ctx.where(fd, calls[0]), "seed argument / find_outer_graph not found"))
+        return out
+    good = False
+    why = f"the seeds are '{A.unparse(arg)[:50]}'"
+    if isinstance(arg, ast.Name):
+        ds = [d for d in cfg.reaching_defs(arg) if d.stmt is not None]
+        vals = []
+        for d in ds:
+            if isinstance(d.stmt, (ast.Assign, ast.AnnAssign)) and d.stmt.value is not None:
+                vals.append(d.stmt.value)
+            else:
+                vals.append(None)
+        if ds and all(v is not None and isinstance(v, ast.Call) and (A.dotted(v.func) or "").split(".")[-1] == fog.name for v in vals) and len(cfg.reaching_defs(arg)) == len(ds):
+            # the set is not shrunk in place between its computation and the walk
+            shr = [c for c in A.walk_no_nested(fd.node) if isinstance(c, ast.Call) and isinstance(c.func, ast.Attribute) and A.unparse(c.func.value) == arg.id and c.func.attr in ("discard", "remove", "difference_update", "intersection_update", "pop", "clear")]
+            aug = [s for s in A.walk_no_nested(fd.node) if isinstance(s, ast.AugAssign) and A.unparse(s.target) == arg.id]
+            if not shr and not aug:
+                good = True
+            else:
+                why = f"'{arg.id}' is shrunk after it was computed (line {A.lineno((shr + aug)[0])})"
+        else:
+            bad_defs = [A.unparse(v)[:50] if v is not None else "?" for v in vals if not (v is not None and isinstance(v, ast.Call) and (A.dotted(v.func) or "").split(".")[-1] == fog.name)]
+            why = f"on some path the seeds are {bad_defs[:1] or ['undefined']}, not the result of {fog.name}()"
+    elif isinstance(arg, ast.Call) and (A.dotted(arg.func) or "").split(".")[-1] == fog.name:
+        good = True
+    if good:
+        out.append(ok("DISP-11", fd.qualname, key, ctx.where(fd, calls[0]), f"{heads_param} = {fog.name}(<dictionary>) unchanged"))
+    else:
+        out.append(bad("DISP-11", fd.qualname, key, ctx.where(fd, calls[0]), f"{why}: blocks of the outermost level that the walk does not reach from those seeds (a cycle entered only from dead code, a second component) are silently dropped on read"))
+    # find_outer_graph: all keys minus the members of regions, nothing else
+    key = "outer blocks = all blocks minus the members of regions"
+    inits = [s for s in fog.node.body if isinstance(s, (ast.Assign, ast.AnnAssign)) and s.value is not None]
+    rets = [r for r in A.walk_no_nested(fog.node) if isinstance(r, ast.Return) and r.value is not None]
+    removals = [c for c in A.walk_no_nested(fog.node) if isinstance(c, ast.Call) and isinstance(c.func, ast.Attribute) and c.func.attr in ("difference_update", "discard", "remove", "intersection_update")]
+    removals += [s for s in A.walk_no_nested(fog.node) if isinstance(s, ast.AugAssign) and isinstance(s.op, (ast.Sub, ast.BitAnd))]
+    okk = bool(rets) and bool(removals)
+    detail = ""
+    for r in removals:
+        argx = r.args[0] if isinstance(r, ast.Call) and r.args else (r.value if isinstance(r, ast.AugAssign) else None)
+        argx = see_through(ctx, fog, argx) if argx is not None else None
+        t = A.unparse(argx) if argx is not None else "?"
+        if "contains" not in t or (isinstance(r, ast.Call) and r.func.attr == "intersection_update") or (isinstance(r, ast.AugAssign) and isinstance(r.op, ast.BitAnd)):
+            okk = False
+            detail = f"'{A.unparse(r)[:50]}' removes something other than the members of a region"
+    if okk:
+        out.append(ok("DISP-11", fog.qualname, key, ctx.where(fog), "set(blocks) minus every 'contains' list"))
+    else:
+        out.append(bad("DISP-11", fog.qualname, key, ctx.where(fog), detail or "the outer blocks are not computed as 'all blocks minus the contents of regions'"))
+    out.append(ok("DISP-11", mk.qualname, "walk exhausts its work-list", ctx.where(mk), "see TOTAL-6", nontrivial=False))
+    return out
